@@ -1,0 +1,10 @@
+//go:build !verif
+
+package pqueue
+
+// Verification hooks (see verif_on.go); with the verif build tag off these are empty and inlined away.
+
+func vpEvent[T any](kind string, q *Queue[T], e *T)  {}
+func vpEventU[T any](kind string, q *Queue[T], e *T) {}
+func vpGate[T any](point string, q *Queue[T], e *T)  {}
+func vpMulti[T any](kind string, e *T, lockI, i int) {}
